@@ -238,7 +238,7 @@ func infeasible(fs []FactT) bool {
 }
 
 func runC13(cx *Ctx, r *Report) {
-	r.Explanation = "F2/F3/F5 over every call chain of the begin/end blockers (and, for the pairing rules, of every message handler and service callback). (dequeue) for each of the six block-handler work lists (HTLC expiry, farm active pools, service expired batches, service new batches, active requests of an expired batch, random requests) the per-entry body - the closure handed to the iterating keeper function, or the loop body - deletes the entry it was called for on every path, under a key whose height is the iterator's height (or the object's own key field) and whose id comes from the iterated element; the per-context height marker of the service queues is deleted and written together with the queue entry. (create) creating a queued object writes the object and its queue entry together, the entry's height being the very value stored in the object's key field. (reschedule) every assignment to a key field (FarmPool.EndHeight, HTLC.ExpirationHeight) of a stored object is preceded by the dequeue under the old value and, unless the object ends now, followed by the enqueue under the new one. (close) closing an HTLC by message dequeues it. (single entry) a service context is put on the new-batch list only when it is on neither list, was just taken off the expired list, or is brand new; it is put on the expired list only by the new-batch body. (abort classes) every explicit panic and every quotient reachable from a block handler or service callback is listed; quotients need a dominating non-zero guard on the same expression or a reviewed, re-checked reason. Errors discarded inside block handlers are enumerated. Decides pairing and the listed abort classes on all paths; it does not decide absence of every run-time abort, nor the due-height arithmetic."
+	r.Explanation = "F2/F3/F5 over every call chain of the begin/end blockers (and, for the pairing rules, of every message handler and service callback). (dequeue) for each of the six block-handler work lists (HTLC expiry, farm active pools, service expired batches, service new batches, active requests of an expired batch, random requests) the per-entry body - the closure handed to the iterating keeper function, or the loop body - deletes the entry it was called for on every path, under a key whose height is the iterator's height (or the object's own key field) and whose id comes from the iterated element; the per-context height marker of the service queues is deleted and written together with the queue entry. (create) creating a queued object writes the object and its queue entry together, the entry's height being the very value stored in the object's key field. (reschedule) every assignment to a key field (FarmPool.EndHeight, HTLC.ExpirationHeight) of a stored object is preceded by the dequeue under the old value and, unless the object ends now, followed by the enqueue under the new one. (close) closing an HTLC by message dequeues it. (single entry) a service context is put on the new-batch list only when it is on neither list, was just taken off the expired list, or is brand new; it is put on the expired list only by the new-batch body. (abort classes) every explicit panic and every quotient reachable from a block handler or service callback is listed; quotients need a dominating non-zero guard on the same expression or a reviewed, re-checked reason. Errors discarded inside block handlers are enumerated. Decides pairing and the listed abort classes on all paths; it does not decide absence of every run-time abort, nor the due-height arithmetic beyond the wrap-around guard of random requests (due-height-no-wrap)."
 	r.Assumptions = []string{"store iteration visits exactly the entries under the prefix", "block time is after 1970 (random's divisor)", "queue entries and objects agree initially (genesis import rebuilds the queues, C12)"}
 	walks := map[string]*c13Walk{}
 	get := func(e Entry) *c13Walk {
